@@ -110,6 +110,18 @@ func (d *devSim) fault(echoLine, normal string, promptAfter string) bool {
 		d.emit(echoLine + "WARNING: something noteworthy\n" + prompt)
 	case "infotext":
 		d.emit(echoLine + "INFO: something\n" + prompt)
+	case "warn_then_err":
+		d.emit(echoLine + "WARNING: something noteworthy\n" + d.cfg.ErrText + "\n" + prompt)
+	case "info_then_err":
+		d.emit(echoLine + "INFO: something\n" + d.cfg.ErrText + "\n" + prompt)
+	case "err_then_warn":
+		d.emit(echoLine + d.cfg.ErrText + "\nWARNING: something noteworthy\n" + prompt)
+	case "warns_then_err":
+		d.emit(echoLine + "WARNING: first notice\nWARNING: second notice\nINFO: and an info\n" + d.cfg.ErrText + "\n" + prompt)
+	case "warns_only":
+		d.emit(echoLine + "WARNING: first notice\nWARNING: second notice\n" + prompt)
+	case "info_then_warn":
+		d.emit(echoLine + "INFO: something\nWARNING: something noteworthy\n" + prompt)
 	case "savefail":
 		// a failed save as an ASA prints it: fragments of the good answer, no [OK]
 		d.emit(echoLine + "Building configuration...\nCryptochecksum: 1234abcd 5678ef01 2345abcd 6789ef01\n" +
